@@ -18,7 +18,7 @@ ID = "C11"
 TIERS = {"quick": {"n": 50000, "chunk": 250}, "thorough": {"n": 2000000, "chunk": 2000, "wall_cap": 3300}}
 RULE = (
     "each scenario is a seeded history (3-8 ops, 1 in 8 up to 25) over {write source (5 source paths incl. same basename in two dirs and a name with two dots, 3 fixed contents + fresh ones), "
-    "add_named_file (2 names), remove_named_file, restart, failing registration (missing source), registration whose copy is torn by ENOSPC after 0/50/100% of the bytes (3 in 4 retried at once)}; after every op the store is compared with the abstract model through the live and a fresh instance and by a disk walk. "
+    "add_named_file (2 names), remove_named_file, restart, failing registration (missing source), registration whose copy is torn by ENOSPC after 0/50/100% of the bytes (3 in 4 retried at once, some after the source was rewritten), set_named_files() of 1-3 entries of which one may be missing}; after every op the store is compared with the abstract model through the live and a fresh instance and by a disk walk. "
     "A scenario is non-trivial when some name holds >= 2 registrations; distinct = distinct abstract op-class sequences (op kind, name, content class new/current/earlier, basename change, instance age)."
 )
 ASSUMPTIONS = [
@@ -26,7 +26,7 @@ ASSUMPTIONS = [
     "no concurrent writers to the inputs directory (the library documents single-user instances)",
 ]
 REAL = REAL_ALL
-STUB = STUB_ALL + ["shutil.copy/copy2/copyfile during an add_torn op: writes a prefix of the bytes and raises ENOSPC (disk-full fault)"]
+STUB = STUB_ALL + ["shutil.copy/copy2/copyfile and open(..., 'w'/'a') inside the named-files area during an add_torn op: a prefix of the bytes is stored and ENOSPC raised (disk-full fault)"]
 
 SOURCES = ["d0/a.csv", "d1/a.csv", "d0/b.csv", "d1/c.txt", "d1/r.2024-03.csv"]
 NAMES = ["n0", "n1"]
@@ -39,7 +39,7 @@ def content_bytes(cid):
 def generate(rng, i, tier):
     long = rng.random() < 0.125
     n = rng.randint(9, 25) if long else rng.randint(3, 8)
-    weights = {"write": rng.choice([2, 3, 4]), "add": rng.choice([3, 4, 6]), "remove": rng.choice([0, 1, 1, 2]), "restart": rng.choice([0, 1, 2]), "add_bad": rng.choice([0, 0, 1]), "add_torn": rng.choice([0, 1, 1])}
+    weights = {"write": rng.choice([2, 3, 4]), "add": rng.choice([3, 4, 6]), "remove": rng.choice([0, 1, 1, 2]), "restart": rng.choice([0, 1, 2]), "add_bad": rng.choice([0, 0, 1]), "add_torn": rng.choice([0, 1, 1]), "bulk": rng.choice([0, 0, 1])}
     kinds = [k for k, w in weights.items() for _ in range(w)]
     srcs = rng.sample(SOURCES, rng.randint(2, 5))
     opsl = []
@@ -63,8 +63,15 @@ def generate(rng, i, tier):
             # a registration that must fail (the source does not exist): the store must be left as it was
             opsl.append({"op": "add_bad", "name": rng.choice(NAMES), "src": rng.choice(["d9/gone.csv", "d0/never-written.csv", "d0"])})
         elif k == "add_torn":
-            # the copy into the store dies part-way (disk full): the call raises; the caller usually tries again at once
-            opsl.append({"op": "add_torn", "name": rng.choice(NAMES), "src": rng.choice(srcs), "cut": rng.choice([0.0, 0.5, 0.5, 1.0]), "retry": rng.random() < 0.75})
+            # the copy into the store dies part-way (disk full): the call raises; the caller usually tries again at once -
+            # sometimes after the source has been rewritten with other bytes of the same length
+            opsl.append({"op": "add_torn", "name": rng.choice(NAMES), "src": rng.choice(srcs), "cut": rng.choice([0.0, 0.5, 0.5, 1.0]), "retry": rng.random() < 0.75, "edit": rng.choice([None, None, "c0", "c1", "c2"])})
+        elif k == "bulk":
+            # set_named_files({...}): several registrations in one call; one of the sources may be missing, which ends the call there
+            items = [[nm, rng.choice(srcs)] for nm in rng.sample(NAMES, rng.randint(1, 2))]
+            if rng.random() < 0.5:
+                items.insert(rng.randint(0, len(items)), ["nbad", "d9/gone.csv"])
+            opsl.append({"op": "bulk", "items": items})
         else:
             opsl.append({"op": "restart"})
     return {"seed": rng.getrandbits(32), "listdir_salt": rng.choice([None, rng.getrandbits(16), rng.getrandbits(16)]), "ops": opsl, "clock": rng.choice(["frozen", "frozen", "tick", "jumps"])}
@@ -123,11 +130,48 @@ class _torn_copies:
 
         for n, real in self.saved.items():
             setattr(shutil, n, make(real))
+        # ... and the same fault for an implementation that copies through open()/write(): the first write to a file
+        # opened for writing inside the named-files area (manifests excepted) stores a prefix and raises
+        import builtins
+
+        self.real_open = real_open = builtins.open
+
+        class Torn:
+            def __init__(self, f):
+                self.f = f
+
+            def write(self, data):
+                if st["fired"]:
+                    return self.f.write(data)
+                st["fired"] += 1
+                self.f.write(data[: int(len(data) * cut)])
+                self.f.flush()
+                raise OSError(errno.ENOSPC, "No space left on device (simulated)")
+
+            def __enter__(self):
+                self.f.__enter__()
+                return self
+
+            def __exit__(self, *a):
+                return self.f.__exit__(*a)
+
+            def __getattr__(self, name):
+                return getattr(self.f, name)
+
+        def opener(file, mode="r", *a, **kw):
+            f = real_open(file, mode, *a, **kw)
+            if not st["fired"] and isinstance(file, str) and any(c in mode for c in "wax") and os.sep + "named_files" + os.sep in os.path.abspath(file) and not file.endswith(".json"):
+                return Torn(f)
+            return f
+
+        builtins.open = opener
         return st
 
     def __exit__(self, *a):
+        import builtins
         import shutil
 
+        builtins.open = self.real_open
         for n, real in self.saved.items():
             setattr(shutil, n, real)
         return False
@@ -322,6 +366,12 @@ def execute(sc):
                 vs = model.get(op["name"], [])
                 cls.append(("known" if vs else "unknown") + ("-retry" if op["retry"] else ""))
                 if op["retry"]:
+                    if op.get("edit") and torn["fired"]:
+                        data = content_bytes(op["edit"])
+                        sha = _sha(data)
+                        w.write_bytes(sp, data)
+                        src_now[op["src"]] = data
+                        out.probe("source rewritten between a torn copy and its retry")
                     with ops.quiet():
                         cs.file_manager.add_named_file(name=op["name"], path=sp)
                     vs = model.setdefault(op["name"], [])
@@ -335,6 +385,30 @@ def execute(sc):
                     shutil.rmtree(os.path.join("inputs", "named_files", op["name"]), ignore_errors=True)
                 if _read(sp) != data:
                     out.v("source_touched", f"step {step}: source {sp} changed by the failed add_named_file")
+            elif k == "bulk":
+                items = [(nm, src) for nm, src in op["items"] if src in src_now or nm == "nbad"]
+                bad = any(nm == "nbad" for nm, _ in items)
+                try:
+                    with ops.quiet():
+                        cs.file_manager.set_named_files({nm: os.path.join("src", src) for nm, src in items})
+                    if bad:
+                        out.v("bad_add_accepted", f"step {step}: set_named_files with the non-existent source src/d9/gone.csv did not fail")
+                except Exception as e:  # noqa: BLE001
+                    if not bad or (not ops.in_repo(e) and not isinstance(e, OSError)):
+                        raise
+                    out.fault("failed_registration")
+                    out.probe("bulk registration that fails part-way")
+                for nm, src in items:
+                    if nm == "nbad":
+                        import shutil
+
+                        shutil.rmtree(os.path.join("inputs", "named_files", "nbad"), ignore_errors=True)
+                        break
+                    data = src_now[src]
+                    vs = model.setdefault(nm, [])
+                    if not vs or (vs[-1][0], vs[-1][1]) != (_sha(data), src.split("/")[-1]):
+                        vs.append((_sha(data), src.split("/")[-1], data))
+                cls.append(f"{len(items)}{'-bad' if bad else ''}")
             elif k == "remove":
                 if op["name"] not in model:
                     out.log(step, "noop")
@@ -373,6 +447,8 @@ def execute(sc):
         out.probe("identical re-add", False)
         out.probe("re-add of old bytes", False)
         out.probe("registration retried after a torn copy", False)
+        out.probe("source rewritten between a torn copy and its retry", False)
+        out.probe("bulk registration that fails part-way", False)
         out.nontrivial = any(len(vs) >= 2 for vs in model.values()) or any("repeat" in c for c in out.sig)
         out.states.append(json.dumps(sorted((n, [(v[0][:6], v[1]) for v in vs]) for n, vs in model.items())))
         out.runs = len(sc["ops"])
